@@ -178,6 +178,38 @@ def buildSteps (F : BodyFn) (P : Project) (cfg : Cfg) (w : World) (picks : List 
 def crashAt (F : BodyFn) (P : Project) (cfg : Cfg) (w : World) (picks : List Nat) (k : Nat) : World :=
   applySteps w ((buildSteps F P cfg w picks).take k)
 
+/-! ## Database start-up (`database_utils.create_database`, called from `pytask_post_parse` on every build)
+
+Opening the connection creates the SQLite file (0 bytes, no table); `metadata.create_all` then issues one autocommitted
+`CREATE TABLE` for every declared table that the file lacks (`checkfirst`).  A process killed during start-up therefore leaves
+a file that exists and has a prefix of the missing tables; a user can leave any subset.  `Generated.createAllUnconditional`
+(extracted: `create_all` is a top-level statement of `create_database`) says that start-up repeats this on every build,
+whatever file it finds; `Generated.dbTables` are the declared tables (`state`, and `runtime`, which `profile.py` writes
+before the state rows of a task). -/
+
+/-- the database file: absent, or present with these tables (a 0-byte file: `some []`) -/
+abbrev DbFile := Option (List String)
+
+/-- the `CREATE TABLE` statements `create_all` issues, in order: one per declared table the file lacks -/
+def startupSteps (tables have_ : List String) : List String := tables.filter (fun t => !have_.contains t)
+
+/-- schema after a complete `create_all` -/
+def createAll (tables have_ : List String) : List String := have_ ++ startupSteps tables have_
+
+/-- schema after start-up. `uncond = false` models "tables are only created together with the file". -/
+def startupWith (uncond : Bool) (tables : List String) (f : DbFile) : List String :=
+  match f with
+  | none => createAll tables []
+  | some h => if uncond then createAll tables h else h
+
+def startup (f : DbFile) : List String := startupWith Generated.createAllUnconditional Generated.dbTables f
+
+/-- the file a process leaves when it is killed after the connection was opened and `k` of the `CREATE TABLE`s ran -/
+def startupCrash (tables : List String) (f : DbFile) (k : Nat) : DbFile :=
+  some (f.getD [] ++ (startupSteps tables (f.getD [])).take k)
+
+def SchemaComplete (tables have_ : List String) : Prop := ∀ t ∈ tables, t ∈ have_
+
 /-! ## The hash memo file
 
 `path.hash_path(path, mtime)` is memoised on `(path, mtime)`; `pytask_unconfigure` dumps the memo with ONE
